@@ -231,11 +231,13 @@ namespace c09
             }
             else
                 igris::serialize(w, v);
+            if constexpr (std::is_same<T, long double>::value) normalise_long_double_tail(w.sstr, before, "archive");
             // and a long-lived writer whose frame string the owner clears between messages writes each message from offset 0
             static std::string frame;
             static W frame_writer(frame);
             frame.clear();
             igris::serialize(frame_writer, v);
+            if constexpr (std::is_same<T, long double>::value) normalise_long_double_tail(frame, 0, "archive");
             if (w.sstr.size() < before || frame.size() != w.sstr.size() - before || memcmp(frame.data(), w.sstr.data() + before, frame.size()) != 0)
                 kit::violate("C09/writers-disagree@archive", "a writer whose string was cleared before the message wrote %zu bytes, a writer appending to a string of %zu bytes wrote %zu bytes for the same value",
                              frame.size(), before, w.sstr.size() - before);
@@ -268,6 +270,13 @@ namespace c09
             igris::serialize(bw, v);
             size_t n = (size_t)(bw.ptr - buf.get());
             std::string conv = igris::serialize(v); // convenience function must agree with the archive
+            if constexpr (std::is_same<T, long double>::value)
+            {
+                std::string viabuf(buf.get(), n);
+                normalise_long_double_tail(viabuf, 0, "archive-bufwriter");
+                normalise_long_double_tail(conv, 0, "archive-bufwriter");
+                memcpy(buf.get(), viabuf.data(), n);
+            }
             if (conv.size() != n || memcmp(conv.data(), buf.get(), n) != 0)
                 kit::violate("C09/writers-disagree@archive", "binary_buffer_writer wrote %zu bytes, igris::serialize(obj) returned %zu bytes for the same value", n, conv.size());
             w.acc.append(buf.get(), n);
@@ -343,6 +352,7 @@ namespace c09
         T1(B3, 1, false);
         T1(std::vector<B3>, 2, true);
         T1(B4, 1, false);
+        T1(long double, 0, false);
 #undef T1
         return a;
     }
